@@ -210,10 +210,11 @@ class Publish:
         # We're updating an existing file, so all of the following
         # should be available.
         self.readkey = self._node.get_readkey()
-        self.required_shares = self._node.get_required_shares()
-        assert self.required_shares is not None
-        self.total_shares = self._node.get_total_shares()
-        assert self.total_shares is not None
+        # an in-place update keeps the encoding of the version it rewrites
+        # (the node may not have read the file yet, and then only knows
+        # this client's defaults)
+        self.required_shares = version[5]
+        self.total_shares = version[6]
         self._status.set_encoding(self.required_shares, self.total_shares)
 
         self._pubkey = self._node.get_pubkey()
